@@ -5,10 +5,11 @@ package main
 // each instance's request log is ordered). The script fails chosen steps: garbage/closed connection
 // (transport error), bad JSON / missing key for a jsonpath extractor, failed assertion, non-2xx status.
 //
-// request def  name:method:pre:uri:body:post      (lists '|'-separated)
+// request def  name:method:pre:uri:body:post[:xh]  (lists '|'-separated)
 //   pre   v=n (source.users[next].id)  v=i<k> (source.users[<k>].name)  v=l ([last].name)  v=r ([rand].name)
 //         v=qX.post.y / v=qX.pre.y (request.X.postprocessor.y / request.X.preprocessor.y)
 //   uri / body parts   c<lit> | pX.y ({{.request.X.postprocessor.y}}) | eX.y (…preprocessor…) | s<k> ({{(index .source.users k).name}})
+//   xh    <header>=<part>   an extra request header (e.g. one literally named url or body) rendered from a part
 //   post  j<var>=<key> (var/jsonpath $.key)  h<var>=<Header> (var/header)  a<code> (assert status)  t<text> (assert body)
 // oracle or=<inst0>/<inst1>/…   per request ordinal: k | s<code> | b (bad json) | e ({}) | g (garbage) | c (close)
 
@@ -38,13 +39,14 @@ type reqDef struct {
 	pre          [][2]string
 	uri, body    []string
 	post         []string
+	xh           [][2]string
 }
 
 func parseReqs(s string) []reqDef {
 	var out []reqDef
 	for _, one := range splitNE(s, ";") {
 		f := strings.Split(one, ":")
-		for len(f) < 6 {
+		for len(f) < 7 {
 			f = append(f, "")
 		}
 		d := reqDef{name: f[0], method: f[1], uri: splitNE(f[3], "|"), body: splitNE(f[4], "|"), post: splitNE(f[5], "|")}
@@ -57,6 +59,12 @@ func parseReqs(s string) []reqDef {
 			kv := strings.SplitN(p, "=", 2)
 			if len(kv) == 2 {
 				d.pre = append(d.pre, [2]string{kv[0], kv[1]})
+			}
+		}
+		for _, p := range splitNE(f[6], "|") {
+			kv := strings.SplitN(p, "=", 2)
+			if len(kv) == 2 {
+				d.xh = append(d.xh, [2]string{kv[0], kv[1]})
 			}
 		}
 		out = append(out, d)
@@ -120,8 +128,13 @@ func gunYAML(kv map[string]string, csvFile string) string {
 			uri += "/" + tmplPart(p)
 		}
 		fmt.Fprintf(&b, "    \"uri\": %s\n", yq(uri))
-		if len(r.pre) > 0 {
+		if len(r.pre) > 0 || len(r.xh) > 0 {
 			b.WriteString("    \"headers\":\n")
+			for _, h := range r.xh {
+				fmt.Fprintf(&b, "      %s: %s\n", yq(h[0]), yq(tmplPart(h[1])))
+			}
+		}
+		if len(r.pre) > 0 {
 			for _, p := range r.pre {
 				pfx := "X-V-"
 				if p[1] == "n" {
@@ -237,6 +250,9 @@ func (in *instance) ServeHTTP(w http.ResponseWriter, r *http.Request) {
 			}
 			hdrs = append(hdrs, "V."+vr+"="+escv(val))
 		}
+	}
+	for _, x := range def.xh {
+		hdrs = append(hdrs, "H."+x[0]+"="+escv(r.Header.Get(x[0])))
 	}
 	sort.Strings(hdrs)
 	h := "-"
